@@ -480,8 +480,7 @@ def r07_4(ctx, counts) -> RuleResult:
                          f'XPTY0004 but comparing a {b} with a {a} '
                          f'{"does not" if r else "does"}: the two operand orders of one general '
                          f'comparison disagree'))
-    if not bad:
-        res.ok(n_pairs)
+    res.ok(n_pairs - 2 * len(bad))
     counts['compat_pairs'] = n_pairs
     return res
 
